@@ -142,6 +142,9 @@ func poolDecoy(c *sim.Ctx, st *sim.Stream) {
 
 func runC02(c *sim.Ctx) {
 	cfg := c.Cfg
+	// the span-cache switch is process-wide configuration: every scenario runs under both
+	thrift.SetSpanCache(cfg.Chance(1, 2))
+	defer thrift.SetSpanCache(false)
 	c.SetupAlloc(allocCfg(cfg, false))
 	st := c.Tape.S("ops")
 	items, stream := genSkipStream(c, st, 63)
